@@ -45,6 +45,8 @@ pub fn dispatch(name: &str) -> bool {
         "h_c10::damaged_item" => h_c10::damaged_item(),
         "h_c07::resolve_object" => h_c07::resolve_object(),
         "h_c07::resolve_both" => h_c07::resolve_both(),
+        "h_c07::resolve_three" => h_c07::resolve_three(),
+        "h_c10::damaged_merge" => h_c10::damaged_merge(),
         "h_c08::commit_with_array_conflict" => h_c08::commit_with_array_conflict(),
         "h_tree::tree_stage" => h_tree::tree_stage(),
         "h_c19::order_pair" => h_c19::order_pair(),
